@@ -452,6 +452,9 @@ func GenPlan(t *rapid.T, cfg GenConfig) *Plan {
 			p.FaultAt = append(p.FaultAt, rapid.IntRange(0, 8).Draw(t, "faultAt"))
 		}
 	}
+	if len(p.FaultAt) > 0 {
+		p.FaultKind = rapid.SampledFrom([]int{0, 0, 1, 1, 2, 3, 4}).Draw(t, "faultKind")
+	}
 	for i := 0; i < cfg.Closes; i++ {
 		switch rapid.IntRange(0, 5).Draw(t, "close") {
 		case 0:
@@ -507,7 +510,7 @@ func PlanKey(p *Plan) string {
 	for _, o := range p.Ops {
 		fmt.Fprintf(&sb, "%s|%v|%s|%d|%s|%v|%s|%s|%d|%v|%s|%s|%v|%s;", o.Kind, o.DryRun, o.IK, o.Barrier, o.Script, o.Vars, postingsKey(o.Postings), o.Reference+">"+o.TargetRef, o.TargetTx, o.Force, o.TargetType, o.TargetAcc, o.Meta, o.Key)
 	}
-	fmt.Fprintf(&sb, "c%v q%v%v f%v r%v%v x%v%v%v h%v b%d s%v", p.CrashAt, p.CloseAt, p.CloseAfterHandoff, p.FaultAt, p.ReadFaultAt, p.ReadFaultOf, p.CancelAt, p.CancelAfter, p.CancelAtHandoff, p.Hold, p.BatchSize, p.SlowStore)
+	fmt.Fprintf(&sb, "c%v q%v%v f%v/%d r%v%v x%v%v%v h%v b%d s%v", p.CrashAt, p.CloseAt, p.CloseAfterHandoff, p.FaultAt, p.FaultKind, p.ReadFaultAt, p.ReadFaultOf, p.CancelAt, p.CancelAfter, p.CancelAtHandoff, p.Hold, p.BatchSize, p.SlowStore)
 	return sb.String()
 }
 
